@@ -3,6 +3,7 @@ from .. import enginecamp as ec
 from .. import framework as fw
 from .. import imagegen as ig
 from . import c07
+from .. import nativecamp
 
 ENGINES = ('featured', 'fast', 'native')
 
@@ -27,7 +28,7 @@ def gen_cases(ctx, n):
 
 
 def run(ctx):
-    fw.static_proofs(ctx, ['Properties/C01.v'])
+    fw.static_proofs(ctx, ['Properties/C01.v', 'Properties/C01_native.v'])
     so = fw.build_fjcore(ctx)
     base = gen_cases(ctx, ctx.n(1500, 40000))
     cases = []
@@ -54,6 +55,11 @@ def run(ctx):
     for c, r in list(zip(cases, results))[:3]:
         ctx.sample({'case': {k: c[k] for k in ('w', 'segs', 'input', 'engine')}, 'observed': r})
     ec.compare_with_machine(ctx, 'c01', cases, results)
+    # the native cases are also evaluated on the transcription of _fjcore.c (Model/EngNative.v), whose refinement to
+    # the machine definition is proved in Properties/C01_native.v: this ties the transcription itself to the C code
+    ncases = [(c, r) for c, r in zip(cases, results) if c['engine'] == 'native']
+    ncases = ncases[:ctx.n(700, 20000)]
+    nativecamp.compare_native(ctx, [c for c, _ in ncases], [r for _, r in ncases], name='c01native')
     ctx.coverage['rule'] = ('generated loadable images (random ops incl. unaligned/self-modifying/IO-window/segment-edge, and '
                             'structured chains) x input bytes x {featured, fast, native(rebuilt from _fjcore.c)}; '
                             'distinct = distinct (w,image,input,engine); non-trivial = the run executed >= 2 ops')
